@@ -10,6 +10,7 @@ import (
 	"sort"
 	"strconv"
 
+	"verifharness/internal/groups"
 	"verifharness/internal/kc"
 )
 
@@ -32,6 +33,7 @@ func main() {
 	leanRep := flag.String("lean", "", "JSON report of the Lean obligations (from bin/check)")
 	replay := flag.String("replay", "", "replay file to re-execute")
 	bindir := flag.String("bindir", "/verif/harness/bin", "directory holding the sibling harness binaries (kcheck_ct, kcheck_generic)")
+	build := flag.String("build", "", "name of this build variant (child mode)")
 	list := flag.Bool("list", false, "list registered checks")
 	flag.BoolVar(&emitMode, "emit", false, "child mode: emit cases as JSON lines")
 	flag.Parse()
@@ -50,6 +52,9 @@ func main() {
 	if !ok {
 		fmt.Fprintf(os.Stderr, "kcheck: no check registered for %q\n", *prop)
 		os.Exit(2)
+	}
+	if *build != "" {
+		groups.BuildConfig = *build
 	}
 	seed := uint64(1)
 	if s := os.Getenv("VERIF_SEED"); s != "" {
@@ -70,6 +75,9 @@ func main() {
 	// correspondence and search still run; if they find no failing input the verdict is
 	// VIOLATION … no-failing-input-found.
 	ck.run(c)
+	if emitMode {
+		os.Exit(0)
+	}
 	if !c.Lean.BuildOK || len(c.Lean.Failed) > 0 || len(c.Lean.BadAxioms) > 0 || len(c.Lean.GrepHits) > 0 {
 		if c.Violations() == 0 {
 			c.Unshown("lean-obligations", "Lean obligations no longer check", map[string]any{
